@@ -150,7 +150,7 @@ TPeerHup == Ev("PeerHup") /\ Consume /\ PeerHup
 TSilent ==
   /\ Silent
   /\ \/ ChqStep \/ BqStep
-     \/ \E d \in Dirs : SqSenq(d) \/ SqCleanup(d) \/ SqPerform(d, TraceK) \/ SqFinish(d) \/ SourceFire(d)
+     \/ \E d \in Dirs : SqSenq(d) \/ SqCleanup(d) \/ SqPick(d) \/ SqSyscall(d, TraceK) \/ SqFinish(d) \/ SourceFire(d)
      \/ CloseQRun \/ ChannelDispose
      \/ \E o \in Ops : op[o].conv /\ HandlerRun(o)      \* the internal handler of a convenience call
 
